@@ -48,6 +48,12 @@ void ConstructionTimeSimulationContext::overrideRegister(const SigHandle &handle
 
 void ConstructionTimeSimulationContext::getSignal(const SigHandle &handle, DefaultBitVectorState &state)
 {
+	// A zero width signal has no value to compute (and post-processing of the copied subnet would disconnect it from its pin).
+	if (handle.getWidth() == 0) {
+		state.resize(0);
+		return;
+	}
+
 	// Basic idea: Find and copy the combinatorial subnet. Then optimize and execute the subnet to find the value.
 	hlim::Circuit simCircuit;
 
